@@ -18,6 +18,7 @@ type kdef struct {
 	Res    string   `json:"res"`
 	Method string   `json:"method"`
 	Range  string   `json:"range"`
+	Rbody  string   `json:"rbody"`
 	Status int      `json:"status"`
 	Hdrs   []string `json:"hdrs"`
 	Body   string   `json:"body"`
@@ -106,7 +107,7 @@ func runSequences(dir, backend, in, out string) error {
 	defer d.close()
 	sc := bufio.NewScanner(fh)
 	sc.Buffer(make([]byte, 1<<20), 1<<24)
-	resIdx := map[string]int{"A": 1, "B": 2, "C": 3, "D": 4, "E": 5, "F": 6}
+	resIdx := map[string]int{"A": 1, "B": 2, "C": 3, "D": 4, "E": 5, "F": 6, "G": 7}
 	for sc.Scan() {
 		var s seqIn
 		if err := json.Unmarshal(sc.Bytes(), &s); err != nil {
@@ -128,8 +129,8 @@ func runSequences(dir, backend, in, out string) error {
 			}
 			d.mu.Unlock()
 			cc := *oc
-			if kd.Method == "POST" {
-				cc.Rbody = "sized"
+			if kd.Rbody != "" && kd.Rbody != "none" {
+				cc.Rbody = kd.Rbody
 			}
 			switch kd.Range {
 			case "ok":
@@ -160,6 +161,30 @@ func runSequences(dir, backend, in, out string) error {
 				}
 			}
 			obs[i][0] = d.observe(a, kd, full, s.Tracked)
+		}
+		if conn != nil && terr == nil && n > 0 {
+			// one more, unjudged exchange: if the proxy left part of the last request unread (a body it had no use
+			// for), that rest is taken for the next request line and this probe fails
+			probe := &Case{ID: (s.S*3)*10 + 9, Slice: "S", Method: "GET", Path: "/probe", Query: "NONE", Rbody: "none", Status: 404, Sbody: "sized"}
+			d.mu.Lock()
+			d.cases[probe.ID] = probe
+			d.mu.Unlock()
+			conn.SetDeadline(time.Now().Add(3 * time.Second))
+			if _, err := conn.Write(d.wire(probe, false)); err == nil {
+				a := readAnswer(br, "GET", conn)
+				d.mu.Lock()
+				sawMethod := ""
+				if ss := d.seen[probe.ID]; len(ss) > 0 {
+					sawMethod = ss[0].Method
+				}
+				d.mu.Unlock()
+				if (a.Err != "" || a.Status != 404 || sawMethod != "GET") && obs[n-1][0]["err"] == "" {
+					if len(sawMethod) > 40 {
+						sawMethod = sawMethod[:20] + "..." + sawMethod[len(sawMethod)-12:]
+					}
+					obs[n-1][0]["err"] = fmt.Sprintf("the tunnel was unusable after this exchange (probe: status %d, origin saw method %q, %s)", a.Status, sawMethod, a.Err)
+				}
+			}
 		}
 		if conn != nil {
 			// anything left unread on the tunnel is a framing error of the last exchange
